@@ -108,6 +108,8 @@ func TestC08(t *testing.T) {
 	c.Rule("parallel: 2-3 judged programs (tight loops of 300-1200 passes over if/else-if/else, for cond, ternary, !, &&, ||, continue, switch with condition values of every specified truthiness class, non-empty strings above all) run at the same time on goroutines and in environments of their own next to 1-3 never-judged disturber scripts that test every kind of value (also the strings whose truth value is left open); each judged program must count the branches the reference interpreter counts; non-trivial = a judged program tests a string")
 	h.Run(c, "parallel", c.N(60, 200), genPar, oraclePar)
 	h.Run(c, "trysignal", 1, genTrySignal, oracleTrySignal)
+	c.Rule("forin_nan: a map of 0-5 entries, 0-3 of them under a key that does not equal itself (a float64 NaN bound by the host or computed as z = 0.0; z / z; in host-bound Go maps also a float32, a complex128, an array and a struct key holding a NaN), built by index assignments, a map literal, make(map[float64]int64) or bound as a Go map of eight types, under a one- or two-variable for-in loop that reports every pass / counts / sums / deletes other (ordinary) entries meanwhile / breaks after pass j / continues at one kind of entry / returns from the enclosing function at the first such entry / is nested in or around a C-style loop; every entry that is not deleted is visited exactly once (order-independent comparison: multisets and counters); non-trivial = the map has at least one such entry; distinct by map type and source text")
+	h.Run(c, "forin_nan", c.N(2500, 25000), genForinNan, oracleForinNan)
 }
 
 var probeInDetail = regexp.MustCompile(`(?:model|anko) "p i:(-?[0-9]+)`)
